@@ -1,5 +1,5 @@
 /- line-protocol handlers for the Cmp / Sort models -/
-import PygModel.Sort
+import PygModel.Native
 
 namespace Pyg.CmpDriver
 open Pyg
@@ -25,6 +25,14 @@ def handle1 (op : String) (args : List Sexp) : Option String := do
   | "cmp", [a, b] =>
       let a ← Val.ofSexp a; let b ← Val.ofSexp b
       pure s!"ok I:{ordInt (cmp a b)}"
+  | "native", [a, b] =>
+      match ← Val.ofSexp a, ← Val.ofSexp b with
+      | .cell x, .cell y =>
+          pure (match x.native y with | some o => s!"ok I:{ordInt o}" | Option.none => "err TypeError")
+      | .tuple xs, .tuple ys =>
+          let xs ← xs.mapM cellOf; let ys ← ys.mapM cellOf
+          pure (match nativeArr xs ys with | some o => s!"ok I:{ordInt o}" | Option.none => "err TypeError")
+      | _, _ => Option.none
   | "sort", [xs] =>
       match ← Val.ofSexp xs with
       | .list xs => pure ("ok " ++ (Val.list (sort xs)).render)
@@ -32,6 +40,18 @@ def handle1 (op : String) (args : List Sexp) : Option String := do
   | "sortidx", [keys] =>
       match ← Val.ofSexp keys with
       | .list ks => pure ("ok " ++ (natList (sortIdx ks)).render)
+      | _ => Option.none
+  | "sortfn", [keys, .atom fn] =>
+      -- `d.sort(f)` with a key FUNCTION of the columns: the sort key of a row is the 1-tuple `(f(row),)`
+      match ← Val.ofSexp keys with
+      | .list ks =>
+          let f : Val → Option Val := fun k => match fn, k with
+            | "swap", .tuple [a, b] => some (.tuple [.tuple [b, a]])
+            | "first", .tuple (a :: _) => some (.tuple [a])
+            | "pair", .tuple [a, b] => some (.tuple [.list [a, b]])
+            | _, _ => Option.none
+          let ks' ← ks.mapM f
+          pure ("ok " ++ (natList (sortIdx ks')).render)
       | _ => Option.none
   | "byvalidx", [orders, rows] =>
       match ← Val.ofSexp orders, ← Val.ofSexp rows with
